@@ -27,7 +27,12 @@ META = {
     "design_ref": "DESIGN.md §4 C22 / C23 / C24",
 }
 
-MISSING = "<missing>"  # alphabet symbol: element without the key attribute
+MISSING = "<missing>"  # alphabet symbol: element without the (last part of the) key attribute
+MISSFIRST = "<missing-first>"  # alphabet symbol: element lacking the FIRST part of a dotted path
+
+
+class SpecRaises(Exception):
+    """the documented behaviour is an exception of this class name."""
 
 
 # =====================================================================================
@@ -64,12 +69,17 @@ def key_of(item, attr, default=None):
     if attr is None:
         return item
     parts = attr.split(".") if isinstance(attr, str) else [attr]
-    for part in parts:
+    for n, part in enumerate(parts):
         if isinstance(part, str) and part.isdigit():
             part = int(part)
         item = lookup(item, part)
         if item is MISSING:
-            return default if default is not None else UNDEF
+            if default is not None:
+                return default  # "a default value to use if an object in the list does not have the given attribute"
+            if n < len(parts) - 1:
+                # looking something up on an undefined value is an error (templates.rst, "Variables")
+                raise SpecRaises("UndefinedError")
+            return UNDEF
     return item
 
 
@@ -343,7 +353,15 @@ def build(kind, seq):
         elif kind == "obj":
             out.append(O(pos=i) if s == MISSING else O(a=s, pos=i))
         elif kind == "nested":
-            out.append({"a": {} if s == MISSING else {"b": s}, "pos": i})
+            if s == MISSFIRST:
+                out.append({"pos": i})
+            else:
+                out.append({"a": {} if s == MISSING else {"b": s}, "pos": i})
+        elif kind == "nestedobj":
+            if s == MISSFIRST:
+                out.append(O(pos=i))
+            else:
+                out.append(O(a=O() if s == MISSING else O(b=s), pos=i))
         elif kind == "tuple":
             out.append((s, i))
         elif kind == "pair":
@@ -355,7 +373,7 @@ def build(kind, seq):
     return out
 
 
-ATTR_FOR_KIND = {"dict": "a", "obj": "a", "nested": "a.b", "tuple": 0}
+ATTR_FOR_KIND = {"dict": "a", "obj": "a", "nested": "a.b", "nestedobj": "a.b", "tuple": 0}
 
 INTS = (0, 1, 2)
 STRS = ("a", "A", "b")
@@ -395,6 +413,9 @@ def configs():
         add("groupby", ("a",), dict(kw, default="X"), kind="dict", alpha=KEYS + (MISSING,))
         add("groupby", ("a",), dict(kw, default="y"), kind="obj", alpha=KEYS + (MISSING,))
         add("groupby", ("a.b",), dict(kw, default="x"), kind="nested", alpha=("X", "y", MISSING))
+        # dotted path: items lacking the first part / the last part / nothing
+        add("groupby", ("a.b",), dict(kw, default="x"), kind="nested", alpha=("X", MISSING, MISSFIRST))
+        add("groupby", ("a.b",), dict(kw, default="Y"), kind="nestedobj", alpha=("x", "y", MISSING, MISSFIRST))
     add("unique", (True,), alpha=STRS)
     add("unique", (False, "a"), kind="dict", alpha=KEYS)
     add("min", alpha=INTS)
@@ -449,6 +470,11 @@ def configs():
     add("map", (), {"attribute": "a", "default": 0}, kind="obj", alpha=(1, "x", MISSING))
     add("map", (), {"attribute": "a.b", "default": "D"}, kind="nested", alpha=(0, "x", MISSING))
     add("map", (), {"attribute": 0}, kind="tuple", alpha=INTS)
+    for kind in ("nested", "nestedobj"):
+        add("map", (), {"attribute": "a.b", "default": "D"}, kind=kind, alpha=(0, MISSING, MISSFIRST))
+        add("map", (), {"attribute": "a.b", "default": 0}, kind=kind, alpha=("x", 1, MISSING, MISSFIRST))
+        add("map", (), {"attribute": "a.b"}, kind=kind, alpha=(0, MISSING, MISSFIRST))
+    add("groupby", ("a.b",), {}, kind="nested", alpha=("x", "X", MISSFIRST))
     add("map", ("upper",), alpha=STRS)
     add("map", ("string",), alpha=(0, "a", None))
     add("map", ("replace", "a", "zz"), alpha=("a", "ba", "c"))
@@ -583,6 +609,8 @@ def run_config(p, cfg, inputs, sig_maxlen=3):
             model_in = "".join(model_in)
         try:
             exp = canon_expected(spec(model_in, *copy.deepcopy(plain_args), **copy.deepcopy(plain_kwargs)))
+        except SpecRaises as e:
+            exp = ("raises", str(e))
         except Exception as e:  # noqa: BLE001
             raise core.HarnessError(f"reference model failed on {name} {cfg['args']} {cfg['kwargs']} {base0!r}: {e!r}")
         if len(seq) <= sig_maxlen and len(seq) > 0:
